@@ -405,8 +405,9 @@ pub fn exec(api: &dyn GlobalApi, s: &Sequence, st: &CaseStats) -> Result<Vec<Str
 
 fn short(op: &Op) -> String {
     let s = format!("{:?}", op);
-    if s.len() > 160 {
-        format!("{}…", &s[..160])
+    if s.chars().count() > 160 {
+        let cut: String = s.chars().take(160).collect();
+        format!("{}…", cut)
     } else {
         s
     }
